@@ -618,7 +618,11 @@ func (x *Exec) clauseTags(c *Contract, cl *Clause) []string {
 // clauseActive: a clause participates in the current run if it carries the property's tag
 // (or the run is not restricted to one property).
 func (x *Exec) clauseActive(c *Contract, cl *Clause) bool {
-	if x.property == "" {
+	// All clauses take part in VC generation (a clause owned by another property is assumed at
+	// call sites and proved in that property's run); the property only selects which
+	// obligations are reported (obligationInProperty). Scope clauses are the exception: they
+	// narrow the input space for their own property only.
+	if cl.Kind != "scope" || x.property == "" {
 		return true
 	}
 	tags := x.clauseTags(c, cl)
